@@ -339,6 +339,10 @@ func (p *Proxy) handleConnectRequest(ctx *Context, req *http.Request, session *S
 
 		log.Debugf("martian: completed MITM for connection: %s", req.Host)
 
+		// The CONNECT exchange is over; its context must not stay retrievable
+		// while the requests inside the tunnel are handled.
+		unlink(req)
+
 		b := make([]byte, 1)
 		if _, err := brw.Read(b); err != nil {
 			log.Errorf("martian: error peeking message through CONNECT tunnel to determine type: %v", err)
